@@ -1226,6 +1226,8 @@ func c10ChildMain(spec c10ChildSpec) {
 	if spec.MaxStack > 0 {
 		debug.SetMaxStack(spec.MaxStack)
 	}
+	// a huge find-all limit is only tried here, in a child: a fatal out-of-memory error cannot be recovered
+	c10NMenu = append(c10NMenu, 1<<40)
 	jobs := c10ChildJobs(spec.Thorough)
 	jb := jobs[spec.Job]
 	if jb.budget > 0 {
@@ -1619,6 +1621,9 @@ func runC10(c *Ctx) {
 			c10RunTok(c, sh, jb)
 		}
 	}
+	if sel("p") {
+		c10RunProps(c, sh, thorough)
+	}
 	for _, ji := range []int{0, 2, 3} {
 		if sel(fmt.Sprintf("c%d", ji)) {
 			c10RunChildJob(c, &childTotal, ji, thorough)
@@ -1669,7 +1674,7 @@ func runC10(c *Ctx) {
 	c.extra["replacement_tokens"] = c10QuoteAll(c10ReplTokens)
 	c.extra["covering_option_sets"] = cov
 	c.extra["option_letters"] = "i m s n x = inline letters; R RightToLeft, E ECMAScript, 2 RE2, U Unicode; G OptionIsCodeGen, B OptionDisableCharClassASCIIBitmap, O OptionMaintainCaptureOrder, L OptionMaxBacktrackingStackSize(64), T MatchTimeout=24h, C OptionMaxCached*(0), c OptionMaxCached*(-1)"
-	c.extra["argument_menu"] = "startAt, count in {-2,-1,0,1,len,len+1,len+7}; n in {-2,-1,0,1}"
+	c.extra["argument_menu"] = "startAt, count in {-2,-1,0,1,len,len+1,len+7}; n in {-2,-1,0,1}, and 1<<40 in the child-process families"
 	c.extra["corpus_sources"] = corpusStatCopy()
 	c.Sample(map[string]any{"family": "TOK", "pattern": "(?<n>)|\\k<n>", "note": "4 tokens"})
 	c.Sample(map[string]any{"family": "TOK", "pattern": "(?(1)[^\xff{2,1}", "note": "4 tokens, does not parse"})
